@@ -39,6 +39,15 @@ CHECKS = {
     "C19": (EX, "4.C19", "bounded exhaustive enumeration of entry points x specification cells (permeate T given?, p given?) x valid argument lattice; missing-parameter classes at every model-taking entry point; existential positive control per (entry point, valid cell)",
             "Every entry point named by the statement raises for the double specification and for missing model parameters/constants, while each accepts at least one case of every valid cell; curve without data, mixture without parameters, <2 experiments without Ea are rejected at every site.",
             "any Exception subclass counts as rejection; DiffusionCurve-from-permeances is a negative control only"),
+    "C08": (MC, "4.C08", "explicit-state trace conformance: every step of every process trace replayed against the standalone flux solver at the reported state (bit-identical), plus exhaustive differential comparison of five entry points on a model-sensitive lattice",
+            "Solver, helpers, one-point curve and step 0 of the ideal models report bit-identical fluxes for the requested model; derived quantities (permeate composition, separation factor in one basis, PSI) are consistent; every process step equals a standalone calculation at its reported state.",
+            "bit-identity demanded only where the same computation runs on the same floats; molar feeds compared with rounding-aware tolerance"),
+    "C09": (EX, "4.C09", "bounded exhaustive enumeration of a round trip: real solver forward (precision 1e-12), curve-class inverse; permeance->flux->permeance through the curve class in 3 units; two-sided known-finding signature for K2",
+            "In vacuum and permeate-temperature mode the curve reports the supplied permeances back (1e-6) on the whole well-conditioned lattice, always in kg/(m2 h kPa); in pressure mode p>0 the deviation is exactly the documented mass-vs-mole-fraction mismatch K2 (KNOWN-FINDING), anything else is a violation.",
+            "NRTL only; cases with driving force < 1% of the partial pressures counted, not judged"),
+    "C11": (MC, "4.C11", "explicit-state simulation relation between each trace and its scaled twins (size scaling, area/time trade, single-factor step-0 twins); bit-exact for power-of-two factors",
+            "For every run in the lattice the twin scaled by 2^j is bit-identical in all intensive series and exactly 2^j times in masses and heats (also in outcome: raises iff the base raises); non-power-of-two factors agree within rounding-aware tolerances.",
+            "find_best_fit memoised; lattice, not continuum"),
 }
 def main():
     checks = []
